@@ -20,7 +20,7 @@ def compile_model(model, vectorize=False, backend="default", inputs=None, style=
     if inputs:
         kwargs["inputs"] = inputs
     func, args, names, smap = tpl.get_run_func(**kwargs)
-    return dict(func=func, args=args, names=names, smap=smap, tpl=tpl)
+    return dict(func=func, args=args, names=names, smap=smap, tpl=tpl, backend=backend)
 
 
 def positions(comp, model, var_paths=None):
@@ -54,10 +54,27 @@ def positions(comp, model, var_paths=None):
 
 
 def eval_field(comp, y, t=0.0, arg_over=None):
+    """Call the compiled vector field the way its backend's own solver does."""
     args = list(comp["args"])
     if arg_over:
         for i, v in arg_over.items():
             args[i] = v
+    backend = comp.get("backend", "default")
+    if backend == "torch":
+        import torch
+        y_t = torch.as_tensor(np.array(y, dtype=float), dtype=args[1].dtype if hasattr(args[1], "dtype") else torch.float64)
+        a2 = [torch.as_tensor(np.asarray(a)) if not isinstance(a, torch.Tensor) and not callable(a) else a for a in args[2:]]
+        dy = comp["func"](t, y_t, *a2)
+        return np.array(dy.detach().cpu().numpy() if hasattr(dy, "detach") else dy, dtype=float, copy=True)
+    if backend == "jax":
+        import jax.numpy as jnp
+        dy = comp["func"](t, jnp.asarray(np.array(y, dtype=float)), *args[2:])
+        return np.array(dy, dtype=float, copy=True)
+    if backend == "fortran":
+        yv = np.array(y, dtype=np.asarray(args[1]).dtype)
+        out = comp["func"](t, yv, *args[2:])
+        dy = args[2] if out is None else out
+        return np.array(dy, dtype=float, copy=True)
     dy = comp["func"](t, np.array(y, dtype=float), *args[2:])
     return np.array(dy, dtype=float, copy=True)
 
